@@ -56,6 +56,11 @@ def r1(ctx):
         good = good and len(conv) == 1
         ctx.check(good, "C14.R1", "rtr_send_pdu:copy-convert-send", s.loc(),
                   "private buffer of len bytes <- memcpy(pdu, len); converted once; tr_send_all(buffer, len)", key="C14.R1:rtr_send_pdu")
+    # one PDU, one transfer: a retry of tr_send_all would start again at byte 0 after an unknown number of bytes went out
+    outs1, _f = es.count_effects(fn, pdb, lambda i, E, st: (["send"] if i.op == "call" and i.callee == "tr_send_all" else None), None)
+    worst = max((o["counts"].get("send", 0) for o in outs1), default=0)
+    ctx.check(bool(outs1) and worst <= 1, "C14.R1", "rtr_send_pdu:one-transfer-per-pdu", sends[0].loc(),
+              "tr_send_all calls on one path: at most %s" % ("1" if worst <= 1 else "many (the send is repeated)"), key="C14.R1:rtr_send_pdu:once")
     conv = pdb.fn("rtr_pdu_to_network_byte_order")
     order = [rfc8210.conv_kind(pdb, conv, c) or c.callee for c in conv.calls() if c.callee]
     ctx.check(order == [("footer", "net"), ("header", "net")], "C14.R1", "footer-before-header",
